@@ -34,6 +34,13 @@ func hasWildcard(expr string) bool {
 			if prev == 0 || strings.IndexByte(".([{,;:?|=<>&+-/%!~^", prev) >= 0 {
 				return true
 			}
+			// after a keyword operator (in, and, or) an operand is expected too
+			head := strings.TrimRight(expr[:i], " \t\n\r")
+			for _, kw := range []string{"in", "and", "or"} {
+				if strings.HasSuffix(head, kw) && (len(head) == len(kw) || !isWordByte(head[len(head)-len(kw)-1])) {
+					return true
+				}
+			}
 		}
 		prev = ch
 	}
@@ -82,4 +89,8 @@ func canonAt(toks []string, i int) (string, int) {
 	default:
 		return t, i + 1
 	}
+}
+
+func isWordByte(b byte) bool {
+	return b == '_' || b == '$' || (b >= '0' && b <= '9') || (b >= 'a' && b <= 'z') || (b >= 'A' && b <= 'Z') || b >= 0x80
 }
